@@ -205,6 +205,8 @@ def run_point(prog, entry: tuple, pt: dict, n_stmts: int = 2) -> dict:
         except PyRaise as pr:
             return {"verdict": "RAISES", "exc": it.exc_class_name(pr.exc), "stage": stage}
         emitted = _count_statement_rows(frames)
+        rows_appended = sum(e.get("added", 0) for e in it.events if e["kind"] == "flow")
+        rows_emitted = sum(len(K.Kit.rows_of(f)) for f in frames if isinstance(f, Msg))
         # the stream used (guessed entry points create it inside pyjelly): find it through the events
         left = None
         streams = [e["obj"] for e in it.events if e["kind"] == "setattr" and e["attr"] == "flow" and isinstance(e.get("obj"), Obj) and isinstance(e.get("value"), Obj)]
@@ -217,12 +219,14 @@ def run_point(prog, entry: tuple, pt: dict, n_stmts: int = 2) -> dict:
             left = len(fl.attrs["data"].items)
             flow_cls = fl.cls.name
             flow_lt = fl.attrs.get("logical_type")
-        ok = emitted == n_stmts and (left in (0, None))
+        ok = emitted == n_stmts and (left in (0, None)) and rows_emitted == rows_appended
         return {
             "verdict": "DRAINED" if ok else "DROPS",
             "emitted_statement_rows": emitted,
             "submitted": n_stmts,
             "rows_left_in_flow": left,
+            "rows_appended": rows_appended,
+            "rows_emitted": rows_emitted,
             "frames": len(frames),
             "flow_class": flow_cls,
             "flow_logical_type": flow_lt,
@@ -321,7 +325,7 @@ def check(chk: Check) -> None:
                 inst,
                 construct,
                 f"accepted configuration returns normally with {r['submitted'] - r['emitted_statement_rows']} of {r['submitted']} statements not emitted "
-                f"({r['rows_left_in_flow']} rows left in {r['flow_class']} logical_type={r['flow_logical_type']}): entry {r['entry']} point {pt}",
+                f"({r['rows_left_in_flow']} rows left in {r['flow_class']} logical_type={r['flow_logical_type']}; {r['rows_appended']} rows entered the flow, {r['rows_emitted']} reached the caller): entry {r['entry']} point {pt}",
                 r,
             )
         else:
